@@ -252,7 +252,28 @@ func (pc *pCtx) p3Lazy(sites []*pSite, only string) {
 			}
 		}
 		pc.add(props, fmt.Sprintf("P3/%s/lazy", name), "building a pipeline subscribes to nothing: sources are subscribed only inside subscribe functions", lazyOK || hot, lazyNote, pc.pos(top.Pos()))
-		pc.add(props, fmt.Sprintf("P3/%s/no-clock-or-random-reading-at-construction", name), "the clock and the random source are read per subscription, never while an operator is built or applied (the reading would be shared by every subscription)", pureOK, pureNote, pc.pos(top.Pos()))
+		// for the time-driven operators the reading would also shift every deadline (C16), and the native rate limiter
+		// builds its windows from Interval (C20)
+		cprops := props
+		timeDriven := false
+		for _, fn := range closureTree(top) {
+			for _, b := range fn.Blocks {
+				for _, ins := range b.Instrs {
+					if call, ok := ins.(ssa.CallInstruction); ok {
+						if f := call.Common().StaticCallee(); f != nil && f.Pkg != nil && (f.Pkg.Pkg.Path() == "time" || strings.HasSuffix(f.Pkg.Pkg.Path(), "internal/xtime")) {
+							timeDriven = true
+						}
+					}
+				}
+			}
+		}
+		if timeDriven {
+			cprops = append(append([]string{}, props...), "C16")
+			if name == "Interval" {
+				cprops = append(cprops, "C20")
+			}
+		}
+		pc.add(cprops, fmt.Sprintf("P3/%s/no-clock-or-random-reading-at-construction", name), "the clock and the random source are read per subscription, never while an operator is built or applied (the reading would be shared by every subscription)", pureOK, pureNote, pc.pos(top.Pos()))
 	}
 }
 
